@@ -139,12 +139,16 @@ class PreAggregation(BaseModel):
         group_by_positions = []
         pos = 1
 
+        def _expr(sql: str) -> str:
+            # The statement selects from the raw table, like the model CTE does
+            return sql.replace("{model}.", "").replace("{model}", "")
+
         # Add time dimension with granularity
         if self.time_dimension and self.granularity:
             time_dim = model.get_dimension(self.time_dimension)
             if time_dim:
                 col_name = f"{self.time_dimension}_{self.granularity}"
-                select_exprs.append(f"DATE_TRUNC('{self.granularity}', {time_dim.sql_expr}) as {col_name}")
+                select_exprs.append(f"DATE_TRUNC('{self.granularity}', {_expr(time_dim.sql_expr)}) as {col_name}")
                 group_by_positions.append(str(pos))
                 pos += 1
 
@@ -153,7 +157,7 @@ class PreAggregation(BaseModel):
             for dim_name in self.dimensions:
                 dim = model.get_dimension(dim_name)
                 if dim:
-                    select_exprs.append(f"{dim.sql_expr} as {dim_name}")
+                    select_exprs.append(f"{_expr(dim.sql_expr)} as {dim_name}")
                     group_by_positions.append(str(pos))
                     pos += 1
 
@@ -168,9 +172,9 @@ class PreAggregation(BaseModel):
                         # COUNT(*) case
                         select_exprs.append(f"COUNT(*) as {measure_name}_raw")
                     elif agg_type == "COUNT_DISTINCT":
-                        select_exprs.append(f"COUNT(DISTINCT {measure.sql_expr}) as {measure_name}_raw")
+                        select_exprs.append(f"COUNT(DISTINCT {_expr(measure.sql_expr)}) as {measure_name}_raw")
                     else:
-                        select_exprs.append(f"{agg_type}({measure.sql_expr}) as {measure_name}_raw")
+                        select_exprs.append(f"{agg_type}({_expr(measure.sql_expr)}) as {measure_name}_raw")
 
         # Build FROM clause
         if model.sql:
